@@ -29,5 +29,6 @@ def run(ctx):
     fmm.transform_rows(ctx)
     fmm.maxwell_terms(ctx)
     fmm.near_field_layout(ctx)
+    fmm.transform_values(ctx)
     c11.edge_convention(ctx)
     rules.kernel_specs(ctx, ("laplace", "helmholtz", "modified_helmholtz"), include_singular=False)
